@@ -17,6 +17,7 @@ import random
 import re
 import shutil
 import sys
+import urllib.parse
 
 from vf import core
 
@@ -98,10 +99,20 @@ def build(seed):
             tags.add("several_enums")
             L += ["enum, bind(c)", doc(), f"enumerator :: ea{mi} = 1", "end enum", "enum, bind(c)", doc(), f"enumerator :: eb{mi} = 2", "end enum"]
         L += [f"integer :: counter", doc()]
+        mod_nl = rng.random() < 0.5
+        if mod_nl:
+            # a namelist group in the module's own specification part, named like those of the procedures (and of the other modules)
+            tags.add("same_namelist_name_in_modules")
+            L += ["namelist /settings/ counter", doc()]
         for pi in range(rng.randint(0, 2)):
             pn = f"user{mi}_{pi}"
             contains += [f"subroutine {pn}()", doc(), "integer :: counter", doc(), "integer :: nlv", "namelist /settings/ nlv", doc(), "common /blk/ counter", f"end subroutine {pn}"]
             tags.add("same_namelist_name_in_procedures")
+        if mi > 0 and rng.random() < 0.4:
+            # a module procedure named like another module of the project (a local name may repeat a global one), with its own /settings/ group
+            tags.add("procedure_named_like_module_both_with_namelist")
+            pn = variants(rng, modnames[0])
+            contains += [f"subroutine {pn}()", doc(), "integer :: pnl", "namelist /settings/ pnl", doc(), f"end subroutine {pn}"]
         if contains:
             L += ["contains"] + contains
         L.append(f"end module {mod}")
@@ -139,7 +150,7 @@ def build(seed):
         tags.add("submodule_named_like_module")
         anc = f"anc{sx}"
         files[f"anc{sx}.f90"] = f"module {anc}\n{doc()}\ninterface\nmodule subroutine work()\nend subroutine\nend interface\nend module {anc}\n"
-        files[f"sub{sx}.f90"] = f"submodule ({anc}) {modnames[0]}\n{doc()}\ncontains\nmodule procedure work\nend procedure\nend submodule {modnames[0]}\n"
+        files[f"sub{sx}.f90"] = f"submodule ({anc}) {modnames[0]}\n{doc()}\ninteger :: snl\nnamelist /settings/ snl\n{doc()}\ncontains\nmodule procedure work\nend procedure\nend submodule {modnames[0]}\n"
     # separate module procedures named like ordinary procedures elsewhere: interface bodies in a module, implementations in a submodule
     if rng.random() < 0.5:
         tags.add("separate_module_procedure_named_like_procedure_elsewhere")
@@ -234,10 +245,12 @@ def run_case(item):
             pass
 
     sys.addaudithook(hook)
+    relmon = site.install_relurl_contract()
     r = site.run_in_process(item["root"])
-    res = {"run": r, "writes_twice": sorted(os.path.relpath(p, out_dir) for p, n in writes.items() if n > 1 and os.path.relpath(p, out_dir).split(os.sep)[0] in ENTITY_DIRS),
+    res = {"run": r, "relurl": {"evals": relmon["evals"], "entity_evals": relmon["entity_evals"], "viol": relmon["viol"], "errors": relmon.get("errors", [])[:3]}, "writes_twice": sorted(os.path.relpath(p, out_dir) for p, n in writes.items() if n > 1 and os.path.relpath(p, out_dir).split(os.sep)[0] in ENTITY_DIRS),
            "n_writes": len(writes), "mon": {"get_name_evals": MON["get_name_evals"], "collisions": MON["collisions"],
-                                            "ambiguous_anchors": sorted(a for a, objs in MON.get("anchors", {}).items() if len(objs) > 1)}}
+                                            "ambiguous_anchors": sorted(a for a, objs in MON.get("anchors", {}).items() if len(objs) > 1),
+                                            "all_anchors": sorted(MON.get("anchors", {}))}}
     proj = captured.get("project")
     ents = []
     if proj is not None and r["outcome"] == "ok":
@@ -286,6 +299,10 @@ def case(seed):
             if kf["dir"] == "src":
                 kf["equal_basenames"] = sum(1 for rel in files if os.path.basename(rel) == os.path.basename(p)) > 1
             viol.append({"kf": kf, "w": {"seed": seed, "path": p, "tags": tags, "files": files}})
+        # 1b every entity link the templates rendered leads to that entity's own URL (contract on the `relurl` filter)
+        for v in r["relurl"]["viol"][:3]:
+            viol.append({"kf": {"kind": "rendered_link_leads_to_other_entity", "dir": v["entity_url"].split("/")[0].lstrip("./")},
+                         "w": {"seed": seed, "link": v, "tags": tags, "files": files}})
         # 2 name selector invariant
         for c in r["mon"]["collisions"]:
             a, b = c["first"][0], c["second"][0]
@@ -307,7 +324,8 @@ def case(seed):
         for e in r["entities"]:
             if e["url"] is None or "#" in e["url"]:
                 continue
-            page = s["pages"].get(e["url"])
+            # (a URL is read by a browser / web server, which decode %-escapes: the file that must exist is the decoded path)
+            page = s["pages"].get(urllib.parse.unquote(e["url"]))
             if page is None:
                 viol.append({"kf": {"kind": "entity_page_missing", "entity": e["kind"]}, "w": {"seed": seed, "entity": e, "tags": tags, "files": files}})
                 continue
@@ -322,11 +340,23 @@ def case(seed):
             for d in hit[:3]:
                 viol.append({"kf": {"kind": "distinct_items_share_anchor", "page_dir": rel.split("/")[0], "anchor_kind": d.split("-")[0]},
                              "w": {"seed": seed, "page": rel, "anchor": d, "tags": tags, "files": files}})
+        # 4b ids that are not entity anchors (sidebar panels, tabs, ...): two elements of one page with different content never carry the same id
+        entity_anchors = set(r["mon"].get("all_anchors", []))
+        for rel, info in s["pages"].items():
+            first, dups = {}, []
+            for i, digest in info["id_attrs"]:
+                if i.lower() in entity_anchors:
+                    continue
+                if i in first and first[i] != digest and i not in dups:
+                    dups.append(i)
+                first.setdefault(i, digest)
+            for d in dups[:3]:
+                viol.append({"kf": {"kind": "distinct_elements_share_id", "page_dir": rel.split("/")[0], "id_kind": re.sub(r"\d+", "N", d)},
+                             "w": {"seed": seed, "page": rel, "id": d, "tags": tags, "files": files}})
         # 5 copied sources
         if opts["incl_src"]:
             # 5b the "Source File" link on an entity's page serves the file that defines the entity
             import posixpath
-            import urllib.parse
 
             for e in r["entities"]:
                 if e["url"] is None or "#" in e["url"] or not e.get("src_path") or not os.path.isfile(e["src_path"]):
@@ -346,7 +376,7 @@ def case(seed):
                                             "names_differ_only_in_case": bn not in others and bn.lower() in [o.lower() for o in others]},
                                      "w": {"seed": seed, "entity": e, "link": url, "tags": tags}})
                         break
-        return {"viol": viol, "tags": tags, "nent": len(r["entities"]), "mon": {"get_name_evals": r["mon"]["get_name_evals"], "n_writes": r["n_writes"]},
+        return {"viol": viol, "tags": tags, "nent": len(r["entities"]), "mon": {"get_name_evals": r["mon"]["get_name_evals"], "n_writes": r["n_writes"], "relurl_entity_evals": r["relurl"]["entity_evals"], "relurl_errors": r["relurl"]["errors"]},
                 "nontrivial": len(tags) >= 2, "hash": core.h(files), "sample": {"seed": seed, "scenario_tags": tags, "files": sorted(files), "entities": len(r["entities"])}}
     finally:
         shutil.rmtree(base, ignore_errors=True)
@@ -385,6 +415,9 @@ def main():
         run.count("entities_with_pages_checked", r["nent"])
         run.count("contract_evals_get_name", r["mon"].get("get_name_evals", 0))
         run.count("fs_write_events_under_output", r["mon"].get("n_writes", 0))
+        run.count("contract_evals_relurl_entity_links", r["mon"].get("relurl_entity_evals", 0))
+        if r["mon"].get("relurl_errors"):
+            run.inconc("relurl monitor error: " + str(r["mon"]["relurl_errors"][:1]))
         for t in r["tags"]:
             run.seen("collision_scenarios", t)
         for v in r["viol"]:
@@ -396,7 +429,7 @@ def main():
 
         repo_tests.attach(run, PID)
     run.finish(floors={"evaluations": 120, "distinct_nontrivial": 100, "entities_with_pages_checked": 1500, "contract_evals_get_name": 5000,
-                       "fs_write_events_under_output": 3000, "collision_scenarios": 12})
+                       "fs_write_events_under_output": 3000, "collision_scenarios": 12, "contract_evals_relurl_entity_links": 5000})
 
 
 if __name__ == "__main__":
